@@ -32,6 +32,7 @@ type hostileReq struct {
 	Cut      int    `json:"cut"`
 	Raw      []byte `json:"raw"` // for Mutation == "raw"
 	Size     int    `json:"size"` // for big bodies
+	KeepAlive bool  `json:"keep_alive"` // send on a pooled keep-alive connection instead of a connection of its own
 	Probe    bool   `json:"probe"`
 	ProbeReq restStep `json:"probe_req"`
 }
@@ -295,7 +296,17 @@ func checkC19(c c19Case) verdict {
 		labels = append(labels, "class="+class, "method="+h.Method)
 		nt = nt || class != "wellformed"
 		t0 := time.Now()
-		status, rb, err := rawHTTP(sv.addr, h.Method, h.Path, body, 5*time.Second)
+		var status int
+		var rb []byte
+		var err error
+		if h.KeepAlive && len(body) <= 1<<16 && len(h.Path) < 200 && h.Path != "*" && !strings.ContainsAny(h.Path, "%\x00 ") {
+			// the same hostile request on a reused connection (what follows it on that connection must still work)
+			labels = append(labels, "keep-alive")
+			r := sv.do(h.Method, h.Path, body, false, 5*time.Second)
+			status, rb, err = r.Status, r.Body, r.Err
+		} else {
+			status, rb, err = rawHTTP(sv.addr, h.Method, h.Path, body, 5*time.Second)
+		}
 		if err != nil && class != "over-limit-body" {
 			// once more, alone, with a long budget: only a second miss counts
 			status, rb, err = rawHTTP(sv.addr, h.Method, h.Path, body, 15*time.Second)
@@ -410,6 +421,7 @@ func drawHostile(t *rapid.T) hostileReq {
 	default:
 		h.Path = postEndpoints[h.Ep]
 	}
+	h.KeepAlive = rapid.Bool().Draw(t, "keepAlive")
 	fields := sortedFieldNames(h.Ep)
 	h.Field = rapid.SampledFrom(fields).Draw(t, "field")
 	h.Mutation = rapid.SampledFrom([]string{"none", "empty", "truncate", "unterminated", "raw", "drop", "type", "type", "type", "type", "contradictory", "big-string", "nested", "extreme", "extreme"}).Draw(t, "mutation")
